@@ -17,6 +17,11 @@ RULE = ('operation histories over 1-4 simulated worker processes (values.MultiPr
         'label names drawn on BOTH sides of the bucket label le in sorted order (a, k, l, A, LE, Le, _x, l_e, lEz | le_, le0, lea, lf, method, '
         'path, status, z), 1-3 per metric in arbitrary declaration order, several label sets per histogram; every sample must carry '
         'exactly the declared label names (+ le on buckets, + pid on per-process gauges); '
+        'a third of the labelled declarations - and a deterministic slice over every type and 7 gauge modes, half of it as '
+        'multi-history cases - carry a USER label named le / quantile / pid on a metric type that does not reserve the name '
+        '(le: counter, summary, gauge; quantile: counter, gauge, histogram; pid: counter, summary, histogram) with values '
+        'float() accepts (0.5, 1 and 1.0, +Inf, inf, 1e3, nan) and rejects (abc, empty, 0x10): such a series is an ordinary '
+        'series of its family with the per-mode aggregate of its type; '
         'a quarter of the random histories (and a deterministic slice over every type and gauge mode) run on a TREE of REAL '
         'processes: worker 0 constructs and updates metrics, [fork, p, w] makes worker p os.fork() worker w at an arbitrary '
         'point (w inherits the metric objects, the value closure and the open mappings), forks of forks included; the forked '
@@ -48,7 +53,8 @@ TRUSTED = ['float + < == of the platform (IEEE binary64; OCaml floats in the dri
            'compares the entries of each file as a set; os.fork() gives the child a copy of the closure and MAP_SHARED mappings of '
            'the parent\'s files (observed on the real processes, not modelled: the model states that nothing is written through them)']
 ASSUMPTIONS = ['one multiprocess mode, one type and one help text per metric name across workers (the registry/metric API guarantees '
-               'nothing else is meaningful); no user label named pid or le',
+               'nothing else is meaningful); no user label named pid on a gauge, le on a histogram, quantile on a summary (the first '
+               'is C12\'s known finding pidlabel, the other two are rejected by the constructors)',
                'a worker marked dead issues no further operations (its pid may be reused by a new worker)',
                'process trees: a forked worker is ended (and marked dead) only when it has no running worker of its own; no '
                'remove()/clear() (values.py keeps the value objects of removed children and would re-initialise them after a fork)',
@@ -70,11 +76,28 @@ BUCKETS = [[1.0, 2.5], [1.0, 5.0], [0.5, 1.0, float('inf')], [-1.0, 0.0, 1.0], [
 LNAMES_BEFORE = ['a', 'b', 'k', 'l', 'A', 'LE', 'Le', 'M', 'Z', '_x', 'code', 'l_e', 'ld', 'lEz']
 LNAMES_AFTER = ['le_', 'le0', 'lea', 'lf', 'm', 'method', 'path', 'status', 'z']
 LNAMES = LNAMES_BEFORE + LNAMES_AFTER
+# label names that the collector (or one metric class) treats specially, declared by the USER on the metric types that do
+# NOT reserve them: `le` is reserved by Histogram only, `quantile` by Summary only, `pid` is added by the collector to
+# gauges only.  A counter / summary / gauge series that carries such a label is an ordinary series of its family.
+RESERVED_FOR = {'counter': ['le', 'le', 'quantile', 'pid'], 'summary': ['le', 'le', 'pid'],
+                'gauge': ['le', 'le', 'quantile'], 'histogram': ['quantile', 'pid']}
+# values of such a label: texts float() accepts (several spellings of one number among them), and texts it rejects
+RESERVED_LVS = ['0.5', '1', '1.0', '+Inf', 'inf', '1e3', ' 2 ', 'abc', '', 'x', 'é"\\', '0x10', '1_0', 'nan']
 
 
-def label_names(rng, empty=0.35, most=3):
+def label_names(rng, empty=0.35, most=3, kind=None, reserved=0.0):
     """declared label names: none, or 1..most distinct names in an arbitrary declaration order, at least half of the time
-    with a name on each side of `le`"""
+    with a name on each side of `le`; with probability `reserved` one of the names is le / quantile / pid on a metric
+    type that does not reserve that name"""
+    if kind is not None and reserved and rng.random() < reserved:
+        names = [rng.choice(RESERVED_FOR[kind])]
+        for n in rng.sample(LNAMES, rng.randrange(0, most)):
+            names.append(n)
+        if rng.random() < 0.15:
+            names += [n for n in RESERVED_FOR[kind] if n not in names][:1]
+        names = list(dict.fromkeys(names))[:max(most, 1)]
+        rng.shuffle(names)
+        return names
     if rng.random() < empty:
         return []
     n = rng.randrange(1, most + 1)
@@ -87,32 +110,49 @@ def label_names(rng, empty=0.35, most=3):
     return names
 
 
-def catalog(rng):
-    """-> list of metric declarations; several ids may share a histogram name with different bucket layouts"""
+def catalog(rng, reserved=0.0):
+    """-> list of metric declarations; several ids may share a histogram name with different bucket layouts.
+    reserved: the share of labelled declarations that carry a user label named le / quantile / pid (on the types that do
+    not reserve the name); 0 for the callers outside C08"""
     cat = []
 
     def add(**d):
         d['id'] = len(cat)
         cat.append(d)
     add(kind='counter', name='c0', help='counter zero', labelnames=[])
-    add(kind='counter', name='c_lab', help='counter "lab"\nline', labelnames=label_names(rng, empty=0.0, most=2))
+    add(kind='counter', name='c_lab', help='counter "lab"\nline',
+        labelnames=label_names(rng, empty=0.0, most=2, kind='counter', reserved=reserved))
     add(kind='summary', name='s0', help='summary', labelnames=[])
-    if rng.random() < 0.5:
-        add(kind='summary', name='s_lab', help='summary lab', labelnames=label_names(rng, empty=0.0))
+    if rng.random() < (0.5 if not reserved else 0.7):
+        add(kind='summary', name='s_lab', help='summary lab',
+            labelnames=label_names(rng, empty=0.0, kind='summary', reserved=reserved))
     b1, b2 = rng.sample(BUCKETS, 2)
-    ln = label_names(rng, empty=0.25)
+    ln = label_names(rng, empty=0.25, kind='histogram', reserved=reserved * 0.5)
     add(kind='histogram', name='h0', help='histo', labelnames=ln, buckets=b1)
     add(kind='histogram', name='h0', help='histo', labelnames=ln, buckets=b2 if rng.random() < 0.4 else b1)
     for i, mode in enumerate(rng.sample(L.MODES, rng.randrange(2, 5))):
         add(kind='gauge', name='g%d_%s' % (i, mode[:3]), help='gauge %s' % mode, mode=mode,
-            labelnames=label_names(rng, empty=0.5, most=2))
+            labelnames=label_names(rng, empty=0.5, most=2, kind='gauge', reserved=reserved * 0.6))
     return cat
 
 
+RESERVED_SHARE = 0.35
+
+
+def label_values(rng, d, pool=None):
+    """label values for one child of d: ordinary labels draw from `pool`; a label named le / quantile / pid draws texts
+    that float() accepts and texts it rejects"""
+    pool = pool or (LVS[:3] if rng.random() < 0.8 else LVS)
+    few = rng.random() < 0.7
+    return [rng.choice(RESERVED_LVS[:4] + RESERVED_LVS[7:9] if few else RESERVED_LVS) if n in ('le', 'quantile', 'pid')
+            else rng.choice(pool) for n in d['labelnames']]
+
+
 def gen_case(rng, nworkers=None, nops=None, wild=False, focus=None):
-    cat = catalog(rng)
+    cat = catalog(rng, reserved=RESERVED_SHARE)
     if focus is not None:        # one gauge of the given mode gets most of the traffic
-        cat.append(dict(id=len(cat), kind='gauge', name='gf', help='focus', mode=focus, labelnames=rng.choice([[], ['a']])))
+        cat.append(dict(id=len(cat), kind='gauge', name='gf', help='focus', mode=focus,
+                        labelnames=rng.choice([[], ['a'], ['a'], ['le'], ['quantile', 'le']])))
     nworkers = nworkers or rng.randrange(1, 5)
     nops = nops or rng.randrange(6, 45)
     pids = rng.sample(PIDS, nworkers)
@@ -173,7 +213,7 @@ def gen_case(rng, nworkers=None, nops=None, wild=False, focus=None):
             ops.append(['new', w, d['id']])
             if rng.random() < 0.3:
                 continue
-        lv = [rng.choice(LVS[:3] if rng.random() < 0.8 else LVS) for _ in d['labelnames']]
+        lv = label_values(rng, d)
         k = d['kind']
         r2 = rng.random()
         if d['labelnames'] and r2 < 0.1:
@@ -205,16 +245,18 @@ def gen_case(rng, nworkers=None, nops=None, wild=False, focus=None):
 def tree_catalog(rng, focus=None):
     """the catalog plus a TWIN of every type / gauge mode in it, so that a forked process can construct a metric that is new
     to it while the file of that type (and mode) is already open in the process it was forked from"""
-    cat = catalog(rng)
+    cat = catalog(rng, reserved=RESERVED_SHARE)
     if focus is not None:
-        cat.append(dict(id=len(cat), kind='gauge', name='gf', help='focus', mode=focus, labelnames=label_names(rng, empty=0.4, most=2)))
+        cat.append(dict(id=len(cat), kind='gauge', name='gf', help='focus', mode=focus,
+                        labelnames=label_names(rng, empty=0.4, most=2, kind='gauge', reserved=0.2)))
     seen = set()
     for d in list(cat):
         k = (d['kind'], d.get('mode'))
         if k in seen:
             continue
         seen.add(k)
-        t = dict(d, id=len(cat), name=d['name'] + '_t', help=d['help'] + ' twin', labelnames=label_names(rng, empty=0.5, most=2))
+        t = dict(d, id=len(cat), name=d['name'] + '_t', help=d['help'] + ' twin',
+                 labelnames=label_names(rng, empty=0.5, most=2, kind=d['kind'], reserved=0.2))
         cat.append(t)
     return cat
 
@@ -232,8 +274,7 @@ def _metric_ops(rng, cat, made, w, clock, vals, amts, d=None, lvs=None, bare=Fal
         out.append(['new', w, d['id']])
         if bare or rng.random() < 0.25:
             return out
-    pool = lvs or (LVS[:3] if rng.random() < 0.8 else LVS)
-    lv = [rng.choice(pool) for _ in d['labelnames']]
+    lv = label_values(rng, d, lvs)
     k = d['kind']
     r2 = rng.random()
     if d['labelnames'] and r2 < 0.15:
@@ -363,9 +404,47 @@ def tree_slice():
                 yield {'metrics': [m, t], 'ops': ops, 'tree': True}
 
 
+def reserved_slice():
+    """every metric type x every label name it does NOT reserve among le / quantile / pid (alone, and next to an ordinary
+    label on either side of it in sorted order) x label values float() accepts (two spellings of one number among them) and
+    rejects: three workers write the same and different children, one is marked dead, everything is collected before and
+    after; each history once as it is and once as a multi-history case (the whole catalog constructed by every worker,
+    replayed through the extracted multi-process model)"""
+    kinds = [dict(kind='counter', help='cc'), dict(kind='summary', help='ss'),
+             dict(kind='histogram', help='hh', buckets=[1.0, 2.5])] + \
+            [dict(kind='gauge', help='g ' + m, mode=m) for m in ('all', 'liveall', 'min', 'livemax', 'sum', 'livesum', 'mostrecent')]
+    n = 0
+    for d0 in kinds:
+        for rname in sorted(set(RESERVED_FOR[d0['kind']])):
+            for others in ([], ['a'], ['z']):
+                for vals in (['0.5', '1', '1.0'], ['abc', '', '+Inf']):
+                    ln = [rname] + others
+                    m = dict(d0, id=0, name='m', labelnames=ln)
+                    plain = dict(d0, id=1, name='p', labelnames=others, help=d0['help'] + ' p')
+
+                    def lv(i):
+                        return [vals[i]] + ['x'] * len(others)
+
+                    def upd(w, mid, lvs, v):
+                        k = d0['kind']
+                        return (['inc', w, mid, lvs, v] if k == 'counter' else ['obs', w, mid, lvs, v] if k != 'gauge'
+                                else ['set', w, mid, lvs, v, 1000.0 + v + w])
+                    ops = [['spawn', 0, 11], ['spawn', 1, 12], ['spawn', 2, 'w.d']]
+                    ops += [['new', w, 0] for w in range(3)] + [['new', w, 1] for w in range(3)]
+                    ops += [upd(0, 0, lv(0), 1.0), upd(1, 0, lv(0), 2.0), upd(2, 0, lv(0), 4.0),
+                            upd(0, 0, lv(1), 8.0), upd(1, 0, lv(2), 16.0), ['child', 2, 0, lv(1)],
+                            upd(0, 1, ['x'] * len(others), 3.0), upd(1, 1, ['x'] * len(others), 0.5),
+                            ['collect'], ['dead', 12], upd(2, 0, lv(2), 0.25), ['collect'], ['merge', 7]]
+                    c = {'metrics': [m, plain], 'ops': ops}
+                    n += 1
+                    yield to_multi(c) if n % 2 else c
+
+
 def cases(ctx):
     rng = ctx.rng
     for c in tree_slice():
+        yield c
+    for c in reserved_slice():
         yield c
     # every gauge mode gets focused histories with 2-4 workers
     for rep in range(ctx.n(3, 40)):
@@ -520,6 +599,8 @@ def multi_replay(case, obs):
                 return 'op %d %r: the real call %s, the model call gives %r' % (
                     i, case['ops'][i], 'raised ' + o['exc'] if 'exc' in o else 'returned', mo)
         elif kd == 'mark':
+            if 'files' not in o:
+                return 'collect at op %d %s' % (i, 'raised %s: %s' % (o['exc'], o.get('msg')) if 'exc' in o else 'gave no observation')
             md = {}
             for t, mdn, p, c in dirs[di]:
                 t, mdn, p = d_str(t), d_str(mdn), d_str(p)
@@ -884,7 +965,8 @@ def check_fams(exp, fams, declared=None):
                     return ('sample %s%r of family %r carries the label names %r, the metric was declared with %r%s'
                             % (sn, sorted(ls.items()), name, sorted(ls), declared[name],
                                ' (+ %s)' % '/'.join(sorted(extra)) if extra else ''))
-            if sn.endswith('_bucket') and 'le' in ls:
+            if (exp[name][0] if name in exp else typ) == 'histogram' and sn == name + '_bucket' and 'le' in ls:
+                # only a histogram family has buckets: the `le` label of any other family is an ordinary user label
                 try:
                     b = float(ls.pop('le'))
                 except ValueError:
@@ -998,6 +1080,20 @@ def classify(case, obs):
             ks.append('histogram_labels:' + ('both_sides_of_le' if after and before else 'after_le' if after else 'before_le'))
             nsets = len({tuple(op[3]) for op in case['ops'] if op[0] in ('obs', 'child') and op[2] == d['id']})
             ks.append('histogram_label_sets:' + ('1' if nsets == 1 else '2-3' if nsets <= 3 else '4+'))
+    touched = {}
+    for op in case['ops']:
+        if op[0] in ('inc', 'dec', 'set', 'settime', 'obs', 'child') and len(op) > 3:
+            touched.setdefault(op[2], []).append(op[3])
+    for d in case['metrics']:
+        for j, n in enumerate(d['labelnames']):
+            if n in ('le', 'quantile', 'pid') and d['id'] in touched:
+                ks.append('user_label:%s_on_%s' % (n, d['kind']))
+                for lv in touched[d['id']]:
+                    try:
+                        float(lv[j])
+                        ks.append('user_label_value:float_accepts')
+                    except (ValueError, IndexError):
+                        ks.append('user_label_value:float_rejects')
     if any(op[0] in ('dead', 'collect_vanish') for op in case['ops']):
         ks.append('has_dead')
     for op, o in zip(case['ops'], obs):
